@@ -1108,13 +1108,17 @@ impl<'env> Executor<'env> {
                 "template name was not a string",
             ));
         };
-        if state.loaded_templates.contains(&name) {
+        // the set of loaded templates holds the names the templates are known under, so the
+        // name has to be compared after path joining (a relative spelling of a template that
+        // was already loaded is the same cycle).
+        let joined = state.env().join_template_path(name, state.name());
+        if state.loaded_templates.contains(joined.as_ref()) {
             return Err(Error::new(
                 ErrorKind::InvalidOperation,
                 format!("cycle in template inheritance. {name:?} was referenced more than once"),
             ));
         }
-        let tmpl = ok!(state.get_template(name));
+        let tmpl = ok!(state.env().get_template(&joined));
         let (new_instructions, new_blocks) = ok!(tmpl.instructions_and_blocks());
         state.loaded_templates.insert(new_instructions.name());
         for (name, instr) in new_blocks.iter() {
